@@ -114,6 +114,7 @@ type world struct {
 	// unstarted is the number of broadcasts whose per-client delivery goroutines exist but
 	// have not run yet (they are parked at their goroutine-start seam).
 	unstarted int
+	burst     bool
 }
 
 // deliveries returns the delivery goroutines parked at their start seam.
@@ -201,13 +202,46 @@ func (w *world) broadcast() {
 	n := len(w.bcasts)
 	viaPost := w.t.Chance(1, 5, "bcast-via-post")
 	payload := fmt.Sprintf("r%d", n)
-	if viaPost {
-		payload = "reload"
+	if viaPost || w.t.Chance(1, 3, "same-payload") {
+		payload = "reload" // what the watch loop really sends, every time
 	}
 	w.bcasts = append(w.bcasts, payload)
 	w.note("broadcast %s post=%v", payload, viaPost)
 	var mu sync.Mutex
 	done := false
+	// race stage: a client connects or an idle client leaves at the very moment of the
+	// broadcast (no quiescence in between); nothing is assumed about whether that client
+	// sees this broadcast
+	var churn *client
+	if w.burst && w.t.Bool("churn-during-broadcast") {
+		var idle []*client
+		for _, c := range w.clients {
+			if w.idle(c) && w.owed(c) == 0 {
+				idle = append(idle, c)
+			}
+		}
+		if len(idle) > 0 && w.t.Bool("leave") {
+			churn = idle[w.t.Choose(len(idle), "who-leaves")]
+			churn.cancelled = true
+			w.k.Count("fault_cancel_idle_during_broadcast", 1)
+			go churn.cancel()
+		} else if len(w.clients) < 8 {
+			c := &client{id: len(w.clients), k: w.k, hdr: http.Header{}}
+			c.name = fmt.Sprintf("client#%d", c.id)
+			ctx, cancel := context.WithCancel(context.Background())
+			c.cancel = cancel
+			c.firstB = n + 1 // not required to see this broadcast
+			w.clients = append(w.clients, c)
+			req := httptest.NewRequest(http.MethodGet, "/_templ/reload/events", nil).WithContext(ctx)
+			w.k.Count("fault_connect_during_broadcast", 1)
+			go func() {
+				w.h.ServeHTTP(c, req)
+				c.mu.Lock()
+				c.gone = true
+				c.mu.Unlock()
+			}()
+		}
+	}
 	go func() {
 		if viaPost {
 			req := httptest.NewRequest(http.MethodPost, "/_templ/reload/events", nil)
@@ -492,7 +526,7 @@ func (w *world) drainAndCheck() {
 func simWorld(rc *kernel.RunCtx) {
 	k := kernel.New(rc.T, kernel.M2, rc.Param("max_steps", 400))
 	kernel.Active = k
-	w := &world{rc: rc, k: k, t: rc.T}
+	w := &world{rc: rc, k: k, t: rc.T, burst: rc.Param("burst", 0) == 1}
 	var simDur time.Duration
 	esc := kernel.Bubble(rc.TB, func() {
 		start := time.Now()
